@@ -421,31 +421,30 @@ fn get_path_and_canonicalized_parameters(url: &Uri) -> (String, String) {
 
     let query_pairs = query_pairs(url);
     let mut canonicalized_parameters = String::new();
-    let mut pairs: HashMap<String, (String, String)> = HashMap::new();
     if !query_pairs.is_empty() {
-        for (key, value) in query_pairs {
-            let key = key.to_lowercase();
-            pairs.insert(
-                // add the query parameter value for sorting,
-                // just in case of duplicate keys by value lexicographically in ascending order.
-                format!("{}{}", key, value),
-                (key.to_lowercase(), value.to_string()),
-            );
-        }
+        // keep every parameter the url carries (duplicates included): each one is part of what is signed
+        let mut pairs: Vec<(String, String)> = query_pairs
+            .into_iter()
+            .map(|(key, value)| (key.to_lowercase(), value))
+            .collect();
 
         // Sort the parameters lexicographically by parameter name and value, in ascending order.
+        pairs.sort_by(|a, b| {
+            format!("{}{}", a.0, a.1)
+                .cmp(&format!("{}{}", b.0, b.1))
+                .then_with(|| a.cmp(b))
+        });
         let mut first = true;
-        for key in pairs.keys().sorted() {
+        for (key, value) in pairs {
             if !first {
                 canonicalized_parameters.push('&');
             }
             first = false;
-            let query_pair = pairs[key].clone();
             // Join each parameter key value pair with '='
-            let p = if query_pair.1.is_empty() {
-                key.to_string()
+            let p = if value.is_empty() {
+                key
             } else {
-                format!("{}={}", query_pair.0, query_pair.1)
+                format!("{}={}", key, value)
             };
             canonicalized_parameters.push_str(&p);
         }
